@@ -123,7 +123,7 @@ Proof. intros Hw. split; [apply Hw|]. apply wf_keys_nodup. apply Hw. Qed.
 
 (* ---------------- relabelling ---------------- *)
 Definition rn (f : N -> N) (c : N * (list N * Z * bool * Z)) := (f (fst c), snd c).
-Definition re (f : N -> N) (c : N * N * (Z * option Z)) := let '(a, b, x) := c in (N.min (f a) (f b), N.max (f a) (f b), x).
+Definition re (f : N -> N) (c : N * N * ecv) := let '(a, b, x) := c in (N.min (f a) (f b), N.max (f a) (f b), x).
 
 Lemma re_minmax f a b x : re f (N.min a b, N.max a b, x) = (N.min (f a) (f b), N.max (f a) (f b), x).
 Proof.
